@@ -99,39 +99,47 @@ theorem interpTog_eq (env : Env) (items : List Item) (t : TogD) (g : Int) (dt : 
         cases parseEnvWord (envOf env t.env) <;> rfl
       · simp [he]
 
-theorem interp_of_bad (d : Decl) (env : Env) (items : List Item) (h : Bad d items) :
+theorem interp_err_left (d : Decl) (env : Env) (items : List Item)
+    (h : (∃ e, mapAll (interpOpt env items) d.opts = .error e) ∨
+         (∃ e, mapAll (interpMul env items) d.muls = .error e) ∨
+         (∃ e, mapAll (interpTog env items) d.togs = .error e)) :
     interp d env items = .error .user := by
   unfold interp
   simp only
-  split
-  · rfl
-  · rcases h with ⟨o, ho, hl⟩ | ⟨t, ht, hn, hb⟩ | ⟨n, hn, hl⟩
-    · have herr : interpOpt env items o = .error .user := by
-        unfold interpOpt
-        cases hc : cliValues o.name items with
+  by_cases ht : tooMany d (positionalsOf items).length = true
+  · simp [ht]
+  · simp only [ht, Bool.false_eq_true, if_false]
+    rcases h with ⟨e, he⟩ | ⟨e, he⟩ | ⟨e, he⟩
+    · rw [he]
+    · rw [he]; cases mapAll (interpOpt env items) d.opts <;> rfl
+    · rw [he]; cases mapAll (interpOpt env items) d.opts <;> cases mapAll (interpMul env items) d.muls <;> rfl
+
+theorem interp_of_bad (d : Decl) (env : Env) (items : List Item) (h : Bad d items) :
+    interp d env items = .error .user := by
+  rcases h with ⟨o, ho, hl⟩ | ⟨t, ht, hn, hb⟩ | ⟨n, hn, hl⟩
+  · have herr : interpOpt env items o = .error .user := by
+      unfold interpOpt
+      cases hc : cliValues o.name items with
+      | nil => rw [hc] at hl; simp at hl
+      | cons x xs =>
+        cases xs with
         | nil => rw [hc] at hl; simp at hl
-        | cons x xs =>
-          cases xs with
-          | nil => rw [hc] at hl; simp at hl
-          | cons y ys => rfl
-      obtain ⟨e, he⟩ := mapAll_err (interpOpt env items) d.opts o ho _ herr
-      rw [he]
-    · have herr : interpTog env items t = .error .user := by
-        unfold interpTog
-        simp only
-        rcases hb with hb | hb
-        · simp [hn, hb]
-        · by_cases hrev : t.reversible = true
-          · simp [hn, hb, hrev]
-          · have : t.reversible = false := by simpa using hrev
-            simp [hn, this]
-      obtain ⟨e, he⟩ := mapAll_err (interpTog env items) d.togs t ht _ herr
-      rw [he]
-      cases mapAll (interpOpt env items) d.opts <;> cases mapAll (interpMul env items) d.muls <;> rfl
-    · rename_i hif
-      rw [hn] at hif
-      simp at hif
-      omega
+        | cons y ys => rfl
+    exact interp_err_left d env items (Or.inl (mapAll_err (interpOpt env items) d.opts o ho _ herr))
+  · have herr : interpTog env items t = .error .user := by
+      unfold interpTog
+      simp only
+      rcases hb with hb | hb
+      · simp [hn, hb]
+      · by_cases hrev : t.reversible = true
+        · simp [hn, hb, hrev]
+        · have : t.reversible = false := by simpa using hrev
+          simp [hn, this]
+    exact interp_err_left d env items (Or.inr (Or.inr (mapAll_err (interpTog env items) d.togs t ht _ herr)))
+  · unfold interp
+    have : tooMany d (positionalsOf items).length = true := by
+      unfold tooMany; rw [hn]; simpa using hl
+    simp [this]
 
 theorem interp_of_tracks (d : Decl) (hwf : WF d) (env : Env) (items : List Item) (s : Dyn) (pos : List Str)
     (h : Tracks d items s pos) :
@@ -144,7 +152,8 @@ theorem interp_of_tracks (d : Decl) (hwf : WF d) (env : Env) (items : List Item)
     fun m hm => interpMul_eq env items m _ _ (h.mul m hm).1 (h.mul m hm).2
   have hT : ∀ t ∈ d.togs, interpTog env items t = togFinal env t (s.given t.name) (s.dirtyT t.name) :=
     fun t ht => interpTog_eq env items t _ _ (h.rtog ht)
-  have hroom : (match d.allowed with | some n => decide (n < (positionalsOf items).length) | none => false) = false := by
+  have hroom : tooMany d (positionalsOf items).length = false := by
+    unfold tooMany
     cases ha : d.allowed with
     | none => rfl
     | some n =>
@@ -152,8 +161,6 @@ theorem interp_of_tracks (d : Decl) (hwf : WF d) (env : Env) (items : List Item)
       rw [h.posEq] at this
       simp only [decide_eq_false_iff_not]
       omega
-  unfold interp
-  simp only [hroom, Bool.false_eq_true, if_false]
   have hv := validate_spec d hwf env s
   cases hval : validate d env s with
   | error e =>
@@ -161,19 +168,16 @@ theorem interp_of_tracks (d : Decl) (hwf : WF d) (env : Env) (items : List Item)
     obtain ⟨he, hcase⟩ := hv
     subst he
     simp only
+    apply interp_err_left
     rcases hcase with ⟨o, ho, hoe⟩ | ⟨m, hm, hme⟩ | ⟨t, ht, hte⟩
-    · obtain ⟨e, he⟩ := mapAll_err (interpOpt env items) d.opts o ho _ (by rw [hO o ho]; exact hoe)
-      rw [he]
-    · obtain ⟨e, he⟩ := mapAll_err (interpMul env items) d.muls m hm _ (by rw [hM m hm]; exact hme)
-      rw [he]
-      cases mapAll (interpOpt env items) d.opts <;> rfl
-    · obtain ⟨e, he⟩ := mapAll_err (interpTog env items) d.togs t ht _ (by rw [hT t ht]; exact hte)
-      rw [he]
-      cases mapAll (interpOpt env items) d.opts <;> cases mapAll (interpMul env items) d.muls <;> rfl
+    · exact Or.inl (mapAll_err (interpOpt env items) d.opts o ho _ (by rw [hO o ho]; exact hoe))
+    · exact Or.inr (Or.inl (mapAll_err (interpMul env items) d.muls m hm _ (by rw [hM m hm]; exact hme)))
+    · exact Or.inr (Or.inr (mapAll_err (interpTog env items) d.togs t ht _ (by rw [hT t ht]; exact hte)))
   | ok s2 =>
     rw [hval] at hv
     obtain ⟨ho, hm, ht⟩ := hv
-    simp only
+    unfold interp
+    simp only [hroom, Bool.false_eq_true, if_false]
     rw [mapAll_ok (interpOpt env items) (fun o => (s2.val o.name, s2.dirtyO o.name)) d.opts
           (fun o hmem => by rw [hO o hmem]; exact ho o hmem),
         mapAll_ok (interpMul env items) (fun m => (s2.vals m.name, s2.dirtyM m.name)) d.muls
